@@ -29,7 +29,7 @@ def main():
         r = sh(["git", "-C", "/repo", "worktree", "add", "-q", "--detach", wt, "HEAD"])
         assert r.returncode == 0, r.stdout
         REPO = wt
-        env_extra = {"NV_REPO": wt}
+        env_extra = {"NV_REPO": wt, "NV_EVIDENCE_DIR": os.path.join(VERIF, ".build", "seeded_evidence")}
     assert sh(["git", "-C", REPO, "status", "--porcelain"]).stdout.strip() == b"", "/repo not clean"
     resp = os.path.join(VERIF, "seeded", "RESULTS.json")
     results = json.load(open(resp)) if os.path.exists(resp) else {}
